@@ -137,7 +137,8 @@ def both_ways(write, s, name, res, what, **sig):
         a, b = outs["path"].splitlines(), outs["file"].splitlines()
         line = next((i for i, (x, y) in enumerate(zip(a, b)) if x != y), min(len(a), len(b)))
         res.violate("stream.bytes-differ", f"{what}: output through a path differs from output through an open file at line {line + 1}: "
-                    f"{a[line] if line < len(a) else None!r} vs {b[line] if line < len(b) else None!r}", **sig)
+                    f"{a[line] if line < len(a) else None!r} vs {b[line] if line < len(b) else None!r}", first_diff_line=line + 1,
+                    first_diff=[a[line] if line < len(a) else None, b[line] if line < len(b) else None], **sig)
         return None
     return outs["path"]
 
